@@ -3,13 +3,14 @@ import NdnModel.Basic
   Executable model of prefix registration against the forwarder management protocol:
 
   * `NfdRegister.register / unregister`            (src/ndn/transport/nfd_registerer.py)
-  * legacy `NDNApp.register / unregister`          (src/ndn/app.py)
+  * legacy `NDNApp.register / unregister`          (src/ndn/app.py) — `unregister` both as it is now (inside the
+    command lock, like `register`) and as it was in the unchanged tree (outside it: `Cfg.unregLock = false`)
   * `main_loop.starting_task` auto-registration    (src/ndn/appv2.py, src/ndn/app.py)
   * the part of `parse_response` that comes after the TLV decoder (src/ndn/app_support/nfd_mgmt.py)
 
-  Byte-level encoding of ControlParameters / ControlResponse and of the command Interest is the TLV
-  codec (properties C01/C02/C08) and is not repeated here: a command is `(verb, prefix, signed timestamp)`
-  and a reply is what the library's packet decoder makes of the forwarder's answer.
+  Here a command is `(verb, prefix, signed timestamp)` and a reply is what the library's packet decoder makes of
+  the forwarder's answer; `Ndn.NfdBytes.runW` composes this state machine with the byte level (command Interest
+  wires out, reply bytes in).
 
   The registerer is a state machine.  One asyncio semaphore (FIFO, value 1) guards the section
   "wait for a fresh millisecond - sign and send the command - wait for the reply - look at the reply".
@@ -53,13 +54,18 @@ structure Cfg where
   guard : Bool
   /-- `_last_command_timestamp` is re-read after signing (C17-timestamp-guard) -/
   postRead : Bool
+  /-- `unregister` takes the command lock and waits for a fresh millisecond exactly like `register`
+      (legacy front-end: C17-legacy-serialise, fix 754fd1f; `NfdRegister.unregister` always did).  When `false`,
+      `unregister` is the legacy `NDNApp.unregister` of the unchanged tree: it signs and sends at once, outside
+      the semaphore, and the command is in flight next to whatever else is in flight. -/
+  unregLock : Bool
   deriving DecidableEq, Repr, Inhabited
 
-def Cfg.repaired (fe : FrontEnd) : Cfg := ⟨fe, true, true, true, true, true⟩
+def Cfg.repaired (fe : FrontEnd) : Cfg := ⟨fe, true, true, true, true, true, true⟩
 /-- the unchanged tree -/
 def Cfg.unchanged : FrontEnd → Cfg
-  | .v2 => ⟨.v2, false, false, false, true, false⟩
-  | .legacy => ⟨.legacy, false, false, false, false, false⟩
+  | .v2 => ⟨.v2, false, false, false, true, false, true⟩
+  | .legacy => ⟨.legacy, false, false, false, false, false, false⟩
 
 /-! ### outcome of `express` and what the registerer makes of it -/
 
@@ -168,6 +174,9 @@ structure St where
   /-- routes `starting_task` has still to register -/
   autoTodo : List Nat := []
   nextId : Nat := 0
+  /-- `unregister` calls of the unchanged legacy front-end whose command is on the wire: they never held the
+      semaphore (always empty when `cfg.unregLock`) -/
+  free : List Req := []
   deriving DecidableEq, Repr, Inhabited
 
 def init (t0 : Nat) : St := { clock := { now := t0 } }
@@ -176,6 +185,8 @@ inductive Ev where
   | call (v : Verb) (pfx : Nat)
   | reply (k : Reply)
   | connect (routes : List Nat)
+  /-- the answer to the `i`-th command that is in flight outside the semaphore (unchanged legacy `unregister`) -/
+  | replyU (i : Nat) (k : Reply)
   deriving DecidableEq, Repr, Inhabited
 
 /-- the holder of the semaphore waits for a fresh millisecond, signs and sends -/
@@ -208,8 +219,20 @@ def autoNext (cfg : Cfg) (env : Env) (s : St) (r : Req) (res : Except PyErr Bool
 def autoActive (s : St) : Bool :=
   !s.autoTodo.isEmpty || (match s.inflight with | some r => r.auto | none => false) || s.queue.any (·.auto)
 
+/-- the unchanged legacy `NDNApp.unregister`: no semaphore, no guard — `make_command` reads the clock, the command
+    goes out at once and is in flight next to everything else -/
+def freeRun (env : Env) (s : St) (p : Nat) : St × List Out :=
+  let r : Req := { id := s.nextId, verb := .unregister, pfx := p, auto := false }
+  let c2 := s.clock.signRead env
+  ({ s with nextId := s.nextId + 1, clock := c2, free := s.free ++ [r] }, [.cmd r c2.now])
+
 def step (cfg : Cfg) (env : Env) (s : St) : Ev → St × List Out
-  | .call v p => submit cfg env s v p false
+  | .call v p =>
+    if v == .unregister && !cfg.unregLock then freeRun env s p else submit cfg env s v p false
+  | .replyU i k =>
+    match s.free[i]? with
+    | none => (s, [])
+    | some r => ({ s with free := s.free.eraseIdx i }, [.ret r (finish cfg r.verb (expressOutcome cfg.fe k))])
   | .reply k =>
     match s.inflight with
     | none => (s, [])                                     -- nobody waits for it: dropped
